@@ -220,6 +220,8 @@ func c08RunFull(c c08Case, obs *c08Obs) {
 		obs.Err = "yaml"
 	case strings.Contains(err.Error(), "error while running post render on files"):
 		obs.Err = "postrender"
+	case errors.Is(err, fs.ErrNotExist):
+		obs.Err = "write" // writeToFile: a file opened for appending does not exist
 	default:
 		obs.Err = "other"
 	}
@@ -277,6 +279,8 @@ func c08CoqFull(c c08Case, obs c08Obs) string {
 	case obs.Panic != "":
 	case obs.Err == "yaml":
 		o = "(OFullYamlErr " + c08Str(string(obs.Manifest)) + ")"
+	case obs.Err == "write":
+		o = "OFullWriteErr"
 	case obs.Err == "postrender":
 		o = fmt.Sprintf("(OFullPostErr %s %s %s)", hx.CoqList(hooks), c08Str(obs.Notes), hx.CoqList(ws))
 	case obs.Err == "":
@@ -288,7 +292,7 @@ func c08CoqFull(c c08Case, obs c08Obs) string {
 			fs = append(fs, x)
 		}
 	}
-	return fmt.Sprintf("CFull %s %s %s %s %s %s", opts, c08CoqChart(c08BuildTree(nil, f.Extra)),
+	return fmt.Sprintf("CFull %s %s %s %s %s %s", opts, c08CoqChart(c08BuildTree(c.Files, f.Extra)),
 		c08CoqFiles(obs.Heads, fs, c08ChartName+"/"), c08CoqHeads(obs.Heads), pr, o)
 }
 
@@ -457,6 +461,10 @@ func c08FullCorpus() []any {
 		f.Extra = extra
 		out = append(out, c08Case{Kind: "full", Files: files, Full: &f, Tag: "corpus"})
 	}
+	// recorded observation: a CRD file named like a template, UseReleaseName: the write fails
+	out = append(out, c08Case{Kind: "full", Tag: "corpus", Files: files[:1],
+		Full: &c08Full{IncludeCRDs: true, OutputDir: true, UseReleaseName: true,
+			Extra: []c08Extra{{"crds/../templates/app.yaml", []byte("kind: CustomResourceDefinition\n")}}}})
 	// a parse error: the debugging blob
 	bad := append(append([]c08File{}, files...), c08File{Path: "templates/broken.yaml", Content: []byte("kind: [unclosed\n"),
 		Docs: []c08Doc{{Text: []byte("kind: [unclosed\n"), Class: "malformed"}}, Clean: true})
@@ -677,6 +685,23 @@ func c08OracleFull(c c08Case, obs c08Obs) []hx.Violation {
 			bad("postrender-error", "the post-renderer did not fail but the render reports a post-render error: "+obs.ErrText)
 		}
 		return vs
+	case "write":
+		// recorded observation: fileWritten is keyed by name while CRD files go to the output
+		// directory and manifests to <output directory>/<release name>; a CRD file whose Filename
+		// equals a template name makes the template's file be opened for appending where it does not
+		// exist.  Anything else is not expected to fail.
+		clash := false
+		if f.OutputDir && f.UseReleaseName && f.IncludeCRDs {
+			for _, crd := range c08BuildTree(c.Files, f.Extra).CRDObjects() {
+				for _, e := range exp {
+					clash = clash || (e.place == "generic" && e.path == crd.Filename)
+				}
+			}
+		}
+		if !clash {
+			bad("unexpected-error", "writing the output files failed: "+obs.ErrText)
+		}
+		return vs
 	case "":
 	default:
 		bad("unexpected-error", "render failed: "+obs.ErrText)
@@ -741,7 +766,7 @@ func c08OracleFull(c c08Case, obs c08Obs) []hx.Violation {
 		}
 	}
 	// CRDs (what Chart.CRDObjects lists), in front, verbatim, only with IncludeCRDs
-	crds := c08BuildTree(nil, f.Extra).CRDObjects()
+	crds := c08BuildTree(c.Files, f.Extra).CRDObjects()
 	var crdText strings.Builder
 	for _, crd := range crds {
 		fmt.Fprintf(&crdText, "---\n# Source: %s\n%s\n", crd.Filename, string(crd.File.Data))
